@@ -87,7 +87,8 @@ class Plugin(BasePlugin):
 
     def shrink(self, case):
         for w in shrink_value(case['docs']):
-            if isinstance(w, list) and w and all(isinstance(d, dict) and '_id' in d for d in w):
+            if isinstance(w, list) and w and all(isinstance(d, dict) and '_id' in d for d in w) \
+                    and len({repr(common.to_jsonable(d['_id'])) for d in w}) == len(w):
                 yield dict(case, docs=w)
         for w in shrink_value(case['proj']):
             if isinstance(w, (dict, list)):
